@@ -10,6 +10,8 @@ import (
 	"time"
 
 	"github.com/pkg/errors"
+
+	"github.com/liftbridge-io/liftbridge/server/verifhook"
 )
 
 const (
@@ -100,6 +102,11 @@ func newSegment(path string, baseOffset, maxBytes int64, isNew bool, suffix stri
 	s.position = info.Size()
 	s.writer = log
 	s.reader = log
+	if verifhook.Enabled {
+		if err := verifhook.Point("newseg.afterLogCreate", suffix); err != nil {
+			return nil, err
+		}
+	}
 	err = s.setupIndex()
 	return s, err
 }
@@ -336,6 +343,11 @@ func (s *segment) WriteMessageSet(ms []byte, entries []*entry) error {
 	if _, err := s.write(ms, entries); err != nil {
 		return err
 	}
+	if verifhook.Enabled {
+		if err := verifhook.Point("seg.write.afterLog", s.suffix); err != nil {
+			return err
+		}
+	}
 	return s.Index.writeEntries(entries)
 }
 
@@ -470,11 +482,26 @@ func (s *segment) Replace(old *segment) error {
 	if err := s.close(); err != nil {
 		return err
 	}
+	if verifhook.Enabled {
+		if err := verifhook.Point("replace.afterClose"); err != nil {
+			return err
+		}
+	}
 	if err := os.Rename(s.logPath(), old.logPath()); err != nil {
 		return err
 	}
+	if verifhook.Enabled {
+		if err := verifhook.Point("replace.betweenRenames"); err != nil {
+			return err
+		}
+	}
 	if err := os.Rename(s.indexPath(), old.indexPath()); err != nil {
 		return err
+	}
+	if verifhook.Enabled {
+		if err := verifhook.Point("replace.afterRenames"); err != nil {
+			return err
+		}
 	}
 	s.suffix = ""
 	log, err := os.OpenFile(s.logPath(), os.O_RDWR|os.O_CREATE|os.O_APPEND, 0644)
@@ -552,6 +579,11 @@ func (s *segment) Delete() error {
 	defer s.Unlock()
 	if exists(s.log.Name()) {
 		if err := os.Remove(s.log.Name()); err != nil {
+			return err
+		}
+	}
+	if verifhook.Enabled {
+		if err := verifhook.Point("segdelete.afterLogRemove"); err != nil {
 			return err
 		}
 	}
